@@ -32,8 +32,12 @@ ENGINES = [
      "kind_free_text": "Verus on function bodies extracted from the real macro expansion (vx, rules R1-R9) with contracts from contracts/overlay.vspec; parametric in the enum, one file per repr x cell"},
     {"name": "layer-I", "path": "lib/layer_i.py", "serves_properties": ["C01", "C02", "C03", "C04", "C05", "C06", "C07", "C08"],
      "kind_free_text": "real expansion of corpus enums compiled by rustc and executed natively against a declaration-derived oracle (bounded; supplies the emission seam and replay inputs)"},
-    {"name": "layer-S", "path": "lib/driver.py", "serves_properties": ["C06", "C07", "C08"],
-     "kind_free_text": "structural obligations on the expansion AST (forwarding form of wrapper methods outside Verus)"},
+    {"name": "layer-S", "path": "lib/layer_s.py", "serves_properties": ["C06", "C07", "C08", "C09", "C10", "C15", "C16", "C17", "C18", "C19"],
+     "kind_free_text": "structural obligations on the real expansion AST (vx) and finite catalogues decided by rustc"},
+    {"name": "layer-R", "path": "lib/layer_r.py", "serves_properties": ["C06", "C07", "C09", "C10"],
+     "kind_free_text": "Kani on the real Features::resolve (#[path]-included sources), fully symbolic configuration, loop-free => complete"},
+    {"name": "layer-G", "path": "lib/layer_g.py", "serves_properties": ["C01", "C03", "C05", "C07", "C17", "C18"],
+     "kind_free_text": "Verus on slices of the generator taken verbatim from /repo/src on every run (runs computation, range-table offsets, canonical order)"},
 ]
 
 PROPS = {
@@ -71,7 +75,7 @@ PROPS = {
     "C06": {
         "level": "proof",
         "claim": 'representation-invariant proof for the next_and_back iterator (holds after any history) and verified constructor + wrapper contracts for the std-backed modes; std iterators are trusted by stated contracts; histories on instances are a bounded complement',
-        "layers": ["T", "R", "I", "S"],
+        "layers": ["T", "R", "I", "F"],
         "explanation": "next_and_back mode: data-structure proof — iter() establishes view == all variants ascending, next/next_back/size_hint/len are verified to pop the front/back of the abstract view and preserve the representation invariant, so the claim holds after any finite history and fusedness is `len == 0 ==> None, unchanged`. range/table/table_inline modes: the constructor is verified to build the std iterator over exactly the ascending variants (transmute closure precondition, __ENUM well-formedness) and each wrapper method is verified against the same pop-front/pop-back/nth/last/len contract given the assumed contract of the std iterator; fold/rfold are checked structurally to forward verbatim. Defaults of Iterator (collect, count, rev, ...) are std's. Instances are run natively against a VecDeque model over designed + seeded histories (bounded).",
         "assumptions": ["std's Copied<slice::Iter>, Map<RangeInclusive>, array::IntoIter are correct double-ended exact-size fused iterators over their source (contracts stated in contracts/shims.rs.tmpl)",
                         "Iterator/DoubleEndedIterator default methods are correct for any conforming next/next_back/size_hint"],
@@ -79,16 +83,79 @@ PROPS = {
     "C07": {
         "level": "proof",
         "claim": "Verus proves all five uniform range() bodies against `view == variants between a and b, empty if a > b, no panic` for every enum, shape and repr; the iterator behaviour afterwards is C06's",
-        "layers": ["T", "G", "R", "I", "S"],
+        "layers": ["T", "G", "R", "I", "F"],
         "explanation": "all five uniform range() bodies (gapless x {range, next_and_back, table}, holes x {next_and_back, table}) verified: result view == variants with rank in [rank(a), rank(b)] when a <= b, empty otherwise, no panic (slice bounds are Verus obligations), both MaybeUninit indices initialised on every path, index arithmetic == rank for every repr; the result is the same iterator struct as iter(), so C06's invariant/wrapper contracts carry it through any history. Instances: all ordered pairs for small enums, designed + seeded pairs otherwise, with histories (bounded).",
         "assumptions": ["as C06"],
     },
     "C08": {
         "level": "proof",
         "claim": 'Verus proves names() builds the iterator over exactly the name table and the wrapper contracts; alignment with iter()/as_str follows from C03/C06 contracts; table contents per instance (bounded)',
-        "layers": ["T", "I", "S"],
+        "layers": ["T", "I", "F"],
         "explanation": "names() is verified to build the std iterator over exactly the __NAME table (== names(), length == count()), its wrapper methods are verified against pop-front/pop-back/nth/last/len contracts, fold/rfold forward verbatim; as_str (C03) returns names()[rank(v)] and iter() yields the variant of rank i at position i, hence the zip alignment. __NAME contents in discriminant order: per corpus instance (bounded) and layer G.",
         "assumptions": ["as C06"],
+    },
+    "C09": {
+        "level": "proof",
+        "claim": "one contract per item, discharged by Verus for the body of every mode and shape (so any two modes satisfy the same specification, which determinacy lemmas show fixes the result); Kani proves on the real resolve, for all configurations, that requested items and explicit modes are kept and every auto resolves to a verified mode legal for the shape; under auto every body is token-identical to an explicit mode's body",
+        "layers": ["TALL", "R", "S", "SI"],
+        "si_prefix": ["c9_"],
+        "explanation": "C09 is a lemma over the contracts of C03-C08: the overlay attaches the same postcondition to every (mode, shape) body of an item (checked mechanically: S/spec-identity), Verus discharges it for each body, and lemma_det_* / lemma_vals_unique prove that two results satisfying it are equal. Layer R (Kani, loop-free, all 2^17 x modes x shapes configurations of the real Features::resolve): nothing requested is dropped, explicit modes are kept, no mode stays Auto, iter Range only on gapless, range never with table_inline. S/auto-body: for the same enum under 11 + seeded feature sets, each generated body under auto equals the body of one explicit mode. Instances c9_* run every such configuration against the same oracle (bounded).",
+    },
+    "C10": {
+        "level": "other",
+        "claim": "(i) dependency closure proved by Kani on the real resolve over all configurations, with the `uses` relation extracted from real expansions; (ii) every feature x mode x shape x 12 reprs base case type-checks (rustc, exhaustive over the finite catalogue); (iii) every feature/mode/parameter named in the rustdoc is accepted (exhaustive over the documented catalogue); (iv) split attributes expand token-identically; behaviour of the catalogue entries checked natively (bounded)",
+        "layers": ["R", "S", "SI", "IR"],
+        "si_prefix": ["d_", "sp_"],
+        "explanation": "Level other: (i) is a proof (Kani/CBMC, no loops, complete over the configuration space), (ii)-(iv) are exhaustive enumerations of finite catalogues decided by rustc and by token comparison of real expansions. Compositionality (a union of items compiles if each item's references resolve and names are distinct) is an argument, cross-checked by the everything-enabled configurations of the instance corpus.",
+        "assumptions": ["compositionality of item-wise type checking (argument, not proof)", "the documented catalogue is what the rustdoc of src/lib.rs lists (parsed mechanically)"],
+        "technique": "contract proof of the real Features::resolve with Kani (dependency closure, all configurations) + exhaustive rustc type-check of finite catalogues",
+    },
+    "C11": {
+        "level": "exploration",
+        "claim": "bounded: a designed + seeded corpus of declarations in the documented domain (12 reprs x 8 literal spellings, implicit/explicit mixes, repr and i64 limits, foreign attributes, 300-400 variants; thorough: 65534) must be accepted and every derived item must agree with `variant as repr` as assigned by rustc; never reported as proved",
+        "layers": ["C11", "IR"],
+        "explanation": "The discriminant evaluation walks syn ASTs, which neither verifier can take symbolically (see C12); what is decidable is the contract on the output per declaration. Complete per declaration (full domain for 8/16-bit try_from, every variant, every name probe), sampled over declarations.",
+        "technique": "bounded: per-declaration contract check of the real expansion (rustc + native oracle), stand-in for a function outside the verifiers' reach",
+        "note": "bounded exploration over declarations; trusted: rustc's `as` for the oracle side, the corpus generator's language rule for implicit discriminants",
+    },
+    "C15": {
+        "level": "other",
+        "claim": "structural obligations on the real expansion AST over a finite catalogue (11 nameable features x visibilities x 5 enum visibilities x custom names/struct names; helper-only configurations): requested identifier and visibility token-equal, helpers `__`-prefixed with inherited visibility, nothing else in the impl or module; rustc resolves every internal reference under the custom names; behaviour under custom names checked natively",
+        "layers": ["S", "SI"],
+        "si_prefix": ["v_"],
+        "explanation": "Privacy of an inherited-visibility item outside its module is Rust's rule (trusted). The catalogue is finite and enumerated exhaustively except that item visibilities more public than the enum are skipped (rustc rejects private types in public interfaces).",
+        "technique": "decidable frame condition on the expansion AST (vx) + rustc; not a Hoare-style proof",
+    },
+    "C16": {
+        "level": "other",
+        "claim": "free-name closure: every path in every generated function/struct/impl of every catalogue expansion is absolute ::core or rooted in Self / the enum / a generated struct / a local binding / a name imported by an absolute use in the same function; no macro invocations; base cases compile and behave identically under #[no_implicit_prelude] with user items, modules and macros named like prelude/core items",
+        "layers": ["S", "SI"],
+        "si_prefix": ["h_"],
+        "explanation": "If the closure holds nothing the user defines (other than the enum's own identifiers and primitive type names) can capture a name, for every surrounding program. Method-call trait resolution is decided by rustc on the hostile base cases (30 configurations).",
+        "assumptions": ["primitive type names (u8, usize, str, …) are not shadowed by the user"],
+        "technique": "decidable frame condition (free-name closure) on the expansion AST + rustc in hostile contexts",
+    },
+    "C17": {
+        "level": "other",
+        "claim": "canonical-order lemma proved in Verus (the key-sorted list of entries with pairwise distinct keys is unique, whatever order the HashMap yields them) + the collect/sort_by_key site found verbatim + audit: the only other hash-map iterations are the two finish() loops whose body is emit_error! only; no RandomState/SystemTime/env use; bounded witness: identical expansions in fresh compiler processes",
+        "layers": ["G", "S"],
+        "explanation": "A new hash-map iteration site makes the check undecided (exit 2), not a violation. sort_by_key's contract (key-sorted permutation) is assumed.",
+        "assumptions": ["slice::sort_by_key returns a key-sorted permutation", "HashMap keys are pairwise distinct (duplicates are reported by the insert check in parse_values)"],
+        "technique": "Verus lemma over the contract of the sort site + syntactic audit of iteration sites",
+    },
+    "C18": {
+        "level": "proof",
+        "claim": "corollary: every layer-T contract mentions the declaration only through the discriminant set, the name map and the repr, and is proved for each of the 12 reprs; the generator's variant list is a function of the set of (discriminant, ident, name) by the canonical-order lemma; cross-check on the real pipeline: permuted declarations expand token-identically, admissible reprs expand token-identically after renaming the repr",
+        "layers": ["TALL", "G", "S", "SI"],
+        "si_prefix": ["p_", "q_"],
+        "explanation": "The token-identity cross-check is bounded over a corpus (4 discriminant sets x 3 configurations x 4 orders; 4 sets x 10 reprs); the proof part is the union of the layer-T obligations and the G lemma.",
+    },
+    "C19": {
+        "level": "other",
+        "claim": "every generated item is used at its documented type in every corpus/catalogue module (typed fn-pointer ascriptions, const contexts for into/MIN/MAX, Result<_, ()> / Err = () for the traits, an Iterator+DoubleEndedIterator+ExactSizeIterator+FusedIterator bound on the iterator structs) — discharged by rustc when the harness compiles; item headers of the expansion compared with the signature lines of the rustdoc",
+        "layers": ["S", "IR19"],
+        "explanation": "Finite catalogue (modes x shapes x reprs of the corpus), exhaustive; decided by the type checker.",
+        "technique": "type-level obligations discharged by rustc on ascription probes + header comparison on the expansion AST",
     },
 }
 
@@ -106,6 +173,36 @@ def collect(pid, tier, seed):
         m["_layer"] = "I (instances, native, bounded)"
         obs += o
         metas.append(m)
+    if "TALL" in p["layers"]:
+        o, m = driver.collect_T(pid, tier, pids=["C01", "C03", "C04", "C05", "C06", "C07", "C08"])
+        m["_layer"] = "T (verus on real generated bodies, all items)"
+        obs += o
+        metas.append(m)
+    if "SI" in p["layers"]:
+        o, m = driver.collect_I(pid, tier, seed, source="S", props_filter="any", mod_prefix=p.get("si_prefix"))
+        m["_layer"] = "I (catalogue instances, native, bounded)"
+        obs += o
+        metas.append(m)
+    if "C11" in p["layers"]:
+        o, m = driver.collect_I(pid, tier, seed, source="C11", props_filter="any", include_rejected=True)
+        m["_layer"] = "I (declaration corpus, native, bounded)"
+        obs += o
+        metas.append(m)
+    if "IR" in p["layers"]:
+        # corpus entries that do not compile although they are in the documented domain
+        o, m = driver.collect_I(pid, tier, seed, source="I", props_filter="none", include_rejected=True)
+        m["_layer"] = "I (compile acceptance of the instance corpus)"
+        obs += o
+        metas.append(m)
+    if "IR19" in p["layers"]:
+        for src in ("I", "S"):
+            o, m = driver.collect_I(pid, tier, seed, source=src, props_filter="none", include_rejected=True, reject_filter=r"let _p:|__req::|let _e:|const _C:|E0658|E0015")
+            m["_layer"] = "rustc on typed ascription probes (%s corpus)" % src
+            obs += o
+            metas.append(m)
+        r_ = driver.artifacts.get_i(tier, seed)
+        n_ok = sum(1 for k, v in r_["modules"].items() if v.get("done"))
+        obs.append(driver.Ob("I/probes-compiled", "ok" if n_ok else "undecided", "rustc", sample={"modules_with_probes_compiled": n_ok}))
     if "R" in p["layers"]:
         o, m = driver.collect_R(pid, tier)
         m["_layer"] = "R (kani on the real Features::resolve)"
@@ -116,9 +213,14 @@ def collect(pid, tier, seed):
         m["_layer"] = "G (verus on generator slices)"
         obs += o
         metas.append(m)
-    if "S" in p["layers"]:
+    if "F" in p["layers"]:
         o, m = driver.collect_S_forwarding(pid, tier)
-        m["_layer"] = "S (structural obligations on the expansion)"
+        m["_layer"] = "S (structural forwarding obligations on the expansion)"
+        obs += o
+        metas.append(m)
+    if "S" in p["layers"]:
+        o, m = driver.collect_S(pid, tier, seed)
+        m["_layer"] = "S (structural obligations on the expansion, finite catalogues)"
         obs += o
         metas.append(m)
     if "U" in p["layers"]:
